@@ -472,4 +472,144 @@ theorem nestPlaced_pureV (S : Schema) (rf : RPos) : ∀ (l : List Nat),
     simp only [nestPlaced, List.foldr_cons, hn, Node.withKids, List.length_cons] at ih ⊢
     exact ⟨t, a, m, _, rfl, hm, ih⟩
 
+/-- **`close` on the untouched chain** (what `Fitter.fit` does for a deletion): the final `placed` is a valid
+    payload, open `depth(from)` levels at the start and `depth(close target)` levels at the end -/
+theorem closeFit_valid (S : Schema) (hdet : DetS S) (hleaf : PM.FromDom.LeafOk S) {doc : Node} {t : Nat} {rt : RPos}
+    (ht : doc.resolve t = some rt) (hattrs : S.nodeAttrsOK doc = true) (fr : List FItem) (placed : List Node)
+    (D : Nat) (hl : fr.length = D + 1) (hp : PureV S D placed []) (mv : RPos) (p : List Node)
+    (h : closeFit S doc rt fr placed = .ok (some (mv, p))) : openValid S D mv.depth p = true := by
+  unfold closeFit at h
+  obtain ⟨lvo, hlv, h⟩ := FM.bind_ok h
+  cases lvo with
+  | none => simp [pure, Except.pure] at h
+  | some lv =>
+    simp only at h
+    have hdep : lv.depth < min (fr.length - 1) rt.depth + 1 := findCloseLevelLoop_depth S doc rt fr _ lv hlv
+    have hld : lv.depth ≤ D := by omega
+    obtain ⟨c1, hc1, h⟩ := FM.bind_ok h
+    obtain ⟨hl1, G1, hp1, hG1⟩ := closeMany_pureV S hdet hleaf (fr.length - 1 - lv.depth) fr placed D 0 [] hl
+      (by omega) hp (by simp [leftOpenValid]) c1 hc1
+    rw [show D - (fr.length - 1 - lv.depth) = lv.depth by omega] at hl1 hp1
+    rw [show 0 + (fr.length - 1 - lv.depth) = D - lv.depth by omega] at hG1
+    obtain ⟨pl, hpl, h⟩ := FM.bind_ok h
+    have hfit := findCloseLevelLoop_fit_valid S hdet hleaf doc rt fr _ lv hlv
+    have hpl' : ∃ G2, PureV S lv.depth pl G2 ∧ leftOpenValid S (D - lv.depth) G2 = true := by
+      split at hpl
+      · obtain ⟨G2, hG2, hp2⟩ := addToFragment_pure S lv.depth 0 c1.2 G1 lv.fit pl hp1 (by simpa using hpl)
+        have e : G2 = fappend G1 lv.fit := (pure_ok hG2).symm
+        subst e
+        exact ⟨_, hp2, leftOpenValid_fappend S _ G1 lv.fit hG1 hfit⟩
+      · have := pure_ok hpl
+        subst this
+        exact ⟨G1, hp1, hG1⟩
+    obtain ⟨G2, hp2, hG2⟩ := hpl'
+    obtain ⟨c2, hc2, h⟩ := FM.bind_ok h
+    have := pure_ok h
+    simp only [Option.some.injEq, Prod.mk.injEq] at this
+    obtain ⟨e1, e2⟩ := this
+    subst e1; subst e2
+    have hmv : ∃ pm, doc.resolve pm = some lv.move := by
+      rcases findCloseLevelLoop_move S doc rt fr _ lv hlv with hm | ⟨i, a, _, _, _, hres⟩
+      · exact ⟨t, by rw [hm]; exact ht⟩
+      · exact ⟨a, hres⟩
+    obtain ⟨pm, hpm⟩ := hmv
+    obtain ⟨G3, hp3, hG3⟩ := reopen_pureV S hdet hleaf hpm hattrs (lv.move.depth - lv.depth) (lv.depth + 1) c1.1 pl
+      lv.depth 0 (D - lv.depth) G2 (by omega) hp2 (by rw [openValid_zero_right]; exact hG2) (by omega)
+      (fun k h1 h2 => by omega) c2 hc2
+    by_cases hge : lv.depth ≤ lv.move.depth
+    · have := PureV_openValid S lv.depth (D - lv.depth) (0 + (lv.move.depth - lv.depth)) c2.2 G3 hp3 hG3
+      rw [show lv.depth + (D - lv.depth) = D by omega,
+        show lv.depth + (0 + (lv.move.depth - lv.depth)) = lv.move.depth by omega] at this
+      exact this
+    · rw [show lv.move.depth - lv.depth = 0 by omega] at hG3
+      simp only [Nat.add_zero] at hG3
+      rw [openValid_zero_right] at hG3
+      have := PureV_lower S lv.depth (D - lv.depth) lv.move.depth c2.2 G3 hp3 hG3 (by omega)
+      rw [show lv.depth + (D - lv.depth) = D by omega] at this
+      exact this
+
+theorem fitInit_pureV (S : Schema) {doc : Node} {f : Nat} {rf : RPos} (hf : doc.resolve f = some rf)
+    (hv : S.checkNode doc = true) (sl : Slice) (st0 : FitState) (h : fitInit S rf sl = .ok st0) :
+    PureV S rf.depth st0.placed [] := by
+  have R := resolve_resolved hf
+  unfold fitInit at h
+  obtain ⟨fr, _, h⟩ := FM.bind_ok h
+  have := pure_ok h
+  subst this
+  have := nestPlaced_pureV S rf (List.range rf.depth) (by
+    intro i hi
+    simp only [List.mem_range] at hi
+    obtain ⟨t, a, m, k, hn⟩ := resolve_node_isElem hf (i + 1) (by omega) (by omega)
+    have hc := R.node_check hv (i + 1) (by omega)
+    rw [hn, checkNode_elem] at hc
+    simp only [Bool.and_eq_true] at hc
+    exact ⟨t, a, m, k, hn, hc.1.2⟩)
+  simpa [nestPlaced] using this
+
+/-- the slice of the emitted step, from the final `placed` -/
+theorem fitEmit_valid (S : Schema) (rf rt : RPos) (mi : Option Nat) (ps : Int) (to_ : RPos) (placed : List Node)
+    (st : Step) (h : fitEmit rf rt mi ps to_ placed = .ok (some st))
+    (hv : openValid S rf.depth to_.depth placed = true) :
+    ∃ sl', st.sliceOf = some sl' ∧ openValid S sl'.openStart sl'.openEnd sl'.content = true := by
+  unfold fitEmit at h
+  simp only at h
+  have hn := normalizeOpen_openValid S (rf.depth + 1) placed rf.depth to_.depth hv
+  cases mi with
+  | none =>
+    simp only at h
+    split at h
+    · have := pure_ok h
+      simp only [Option.some.injEq] at this
+      subst this
+      exact ⟨_, rfl, hn⟩
+    · simp [pure, Except.pure] at h
+  | some p =>
+    simp only at h
+    split at h
+    · simp [throw, throwThe, MonadExceptOf.throw] at h
+    · have := pure_ok h
+      simp only [Option.some.injEq] at this
+      subst this
+      exact ⟨_, rfl, hn⟩
+
+/-- **the payload of every step `replace_step` emits for a deletion is valid** -/
+theorem replaceStep_empty_valid (S : Schema) (hdet : DetS S) (hleaf : PM.FromDom.LeafOk S) (doc : Node) (f t : Nat)
+    (hv : S.checkNode doc = true) (hattrs : S.nodeAttrsOK doc = true) (st : Step)
+    (h : replaceStep S doc f t Slice.empty = .ok (some st)) :
+    ∃ sl', st.sliceOf = some sl' ∧ openValid S sl'.openStart sl'.openEnd sl'.content = true := by
+  unfold replaceStep at h
+  split at h
+  · simp [pure, Except.pure] at h
+  · split at h
+    · rename_i rf rt hf ht
+      split at h
+      · simp [throw, throwThe, MonadExceptOf.throw] at h
+      · have := pure_ok h
+        simp only [Option.some.injEq] at this
+        subst this
+        exact ⟨Slice.empty, rfl, by simp [Slice.empty, openValid, rightOpenValid]⟩
+      · obtain ⟨st0, h0, hu, _, hlen, _, _⟩ := fitInit_ok S hf hv Slice.empty
+        have hp0 := fitInit_pureV S hf hv Slice.empty st0 h0
+        unfold fitterFit at h
+        rw [FM.bind_eq h0, FM.bind_eq (fitLoop_empty S _ st0 hu)] at h
+        obtain ⟨mi, _, h⟩ := FM.bind_ok h
+        simp only at h
+        obtain ⟨target, htg, h⟩ := FM.bind_ok h
+        obtain ⟨c, hc, h⟩ := FM.bind_ok h
+        cases c with
+        | none => simp [pure, Except.pure] at h
+        | some c =>
+          simp only at h
+          have hpt : ∃ pt, doc.resolve pt = some target := by
+            cases mi with
+            | none =>
+              have := pure_ok htg
+              subst this
+              exact ⟨t, ht⟩
+            | some p => exact ⟨p, liftRaise_ok htg⟩
+          obtain ⟨pt, hpt⟩ := hpt
+          have hcv := closeFit_valid S hdet hleaf hpt hattrs st0.frontier st0.placed rf.depth hlen hp0 c.1 c.2 hc
+          exact fitEmit_valid S rf rt mi _ c.1 c.2 st h hcv
+    · simp [throw, throwThe, MonadExceptOf.throw] at h
+
 end PM
